@@ -1,6 +1,7 @@
 package props
 
 import (
+	"strings"
 	"testing"
 
 	"verifsim/gen"
@@ -35,7 +36,31 @@ func tokenSpace(maxLen int) int {
 }
 
 type c01Layout struct {
-	cur, tok, tokMul, tok4, gen, sweep int
+	cur, tok, tokMul, tok4, gen, sweep, huge int
+}
+
+// c01Huge: very long FLAT inputs (no nesting): one construct repeated until the text is around a megabyte.
+// Work and stack must grow at most linearly with them.
+const c01HugeTemplates = 7
+
+func c01HugeInput(t int) string {
+	rep := strings.Repeat
+	switch t {
+	case 0:
+		return "echo " + rep("a ", 450000) + "\n"
+	case 1:
+		return rep("x=1 ", 200000) + "cmd\n"
+	case 2:
+		return "cat <<E\n" + rep("line $x text $(y) more\n", 3000) + "E\n"
+	case 3:
+		return "echo " + rep("$x", 150000) + "\n"
+	case 4:
+		return "a " + rep(">f ", 150000) + "\n"
+	case 5:
+		return "case x in " + rep("a) b;; ", 60000) + "esac\n"
+	default:
+		return "cat <<-E\n" + rep("\t\\$5 each `z` text\n", 3000) + "\tE\n"
+	}
 }
 
 // paddings swept around the bufio buffer sizes
@@ -50,8 +75,9 @@ func c01Padding(i int) int {
 const c01Paddings = 192
 
 func (c01) layout(tier string) c01Layout {
-	l := c01Layout{cur: len(gen.Curated), tok: tokenSpace(3), tokMul: 1, gen: 4000, sweep: gen.BoundaryTemplates * c01Paddings}
+	l := c01Layout{cur: len(gen.Curated), tok: tokenSpace(3), tokMul: 1, gen: 4000, sweep: gen.BoundaryTemplates * c01Paddings, huge: c01HugeTemplates}
 	if tier == "thorough" {
+		l.huge = c01HugeTemplates * 4
 		l.tokMul = 8 // 4 source kinds x {no aliases, alias table}
 		l.tok4 = gen.NumTokenStrings(4) / 8
 		l.gen = 200000
@@ -61,7 +87,7 @@ func (c01) layout(tier string) c01Layout {
 
 func (p c01) NumCases(tier string) int {
 	l := p.layout(tier)
-	return l.cur*8 + l.tok*l.tokMul + l.tok4 + l.sweep + l.gen
+	return l.cur*8 + l.tok*l.tokMul + l.tok4 + l.sweep + l.huge + l.gen
 }
 
 func tokenStringAt(i int) string {
@@ -140,6 +166,13 @@ func (p c01) Gen(seed uint64, tier string, idx int) (*Case, bool) {
 		return c, true
 	}
 	idx -= l.sweep
+	if idx < l.huge {
+		c.Src = c01HugeInput(idx % c01HugeTemplates)
+		setKind(c, c01Kinds[idx/c01HugeTemplates%4], src)
+		c.Note = "huge-flat"
+		return c, true
+	}
+	idx -= l.huge
 	// generated programs and mutants
 	o := gen.FullOpts()
 	o.BigWords = true
@@ -174,6 +207,9 @@ func (p c01) Gen(seed uint64, tier string, idx int) (*Case, bool) {
 }
 
 func (c01) Plan(seed uint64, tier string, idx int, c *Case) []Sched {
+	if c.Note == "huge-flat" {
+		return []Sched{{PolicyIdx: idx % 2}}
+	}
 	s := []Sched{{PolicyIdx: 0}, {PolicyIdx: 1}, {PolicyIdx: 2 + idx%7, Seed: gosim.Mix(seed, 0x5C4ED, uint64(idx))}}
 	if tier == "thorough" && c.Note != "token-string<=3" {
 		s = append(s, Sched{PolicyIdx: 9 + idx%5, Seed: gosim.Mix(seed, 0x5C4EE, uint64(idx))})
